@@ -58,11 +58,19 @@ const DEF_TEXT: &[&str] = &[
     "a help line that keeps going and going, well past the hundred columns at which help screens are wrapped, still one line",
 ];
 
+/// item help only (group names and completer descriptions are single lines by construction):
+/// the first line is empty, the text starts with a hard line break
+const HARD_BREAK_HELP: &str = "\n starts with a hard break\n second line";
+
 fn seed_texts(s: &mut Spec, rng: &mut Rng) {
     match s {
         Spec::Item(i) => {
             if rng.chance(2, 3) {
-                i.help = Some(format!("{} H{}", rng.pick(DEF_TEXT), i.id));
+                i.help = Some(if rng.chance(1, 12) {
+                    format!("{} H{}", HARD_BREAK_HELP, i.id)
+                } else {
+                    format!("{} H{}", rng.pick(DEF_TEXT), i.id)
+                });
             }
         }
         Spec::Wrap { w, id, inner } => {
@@ -204,6 +212,22 @@ fn run_sandbox(root: &std::path::Path, scripts: &[String]) -> Option<Vec<Observe
     }
     let _ = std::fs::remove_dir_all(root);
     Some(obs)
+}
+
+/// a candidate whose description is empty (a help text whose first line is empty) is shown with
+/// or without the empty description column: `--name=M -- ` / `--name=M`, `--name<TAB>` / `--name`
+fn no_empty_description(s: &str) -> String {
+    if let Some(t) = s.strip_suffix('\t') {
+        return t.to_string();
+    }
+    // `META: ` is the metavariable placeholder with an empty description
+    if let Some(t) = s.strip_suffix(": ") {
+        return t.to_string();
+    }
+    match s.strip_suffix(" -- ") {
+        Some(t) => t.trim_end().to_string(),
+        None => s.to_string(),
+    }
 }
 
 /// bpaf's display string for a candidate (what bash shows, what zsh puts into `descr`)
@@ -669,7 +693,8 @@ pub fn run_case(case: &mut Case) {
                             want.push(display(c));
                         }
                     }
-                    if o.reply != want {
+                    let reply: Vec<String> = o.reply.iter().map(|r| no_empty_description(r)).collect();
+                    if reply != want {
                         violations.push((
                             "candidates-differ".into(),
                             format!("wanted COMPREPLY {:?}, got {:?}", want, o.reply),
@@ -710,7 +735,12 @@ pub fn run_case(case: &mut Case) {
                     if j.rev0.echo.is_none() && j.rev0.items.len() > 1 {
                         let want_descr: Vec<Vec<String>> =
                             j.rev0.items.iter().map(|c| vec![display(c)]).collect();
-                        if o.descr != want_descr {
+                        let descr: Vec<Vec<String>> = o
+                            .descr
+                            .iter()
+                            .map(|d| d.iter().map(|x| no_empty_description(x)).collect())
+                            .collect();
+                        if descr != want_descr {
                             violations.push((
                                 "descriptions-differ".into(),
                                 format!("wanted {:?}, got {:?}", want_descr, o.descr),
@@ -735,7 +765,11 @@ pub fn run_case(case: &mut Case) {
                     .text
                     .strip_suffix('\n')
                     .map_or_else(Vec::new, |t| t.split('\n').map(str::to_string).collect());
-                let mut got = if j.text.is_empty() { Vec::new() } else { got };
+                let mut got: Vec<String> = if j.text.is_empty() {
+                    Vec::new()
+                } else {
+                    got.iter().map(|g| no_empty_description(g)).collect()
+                };
                 // revision 0 prints a lone candidate without its help text: accept any help
                 if j.rev0.items.len() == 1
                     && j.rev0.echo.is_none()
@@ -778,7 +812,7 @@ pub fn run_case(case: &mut Case) {
                         .strip_suffix('\n')
                         .unwrap_or(&j.text)
                         .split('\n')
-                        .map(str::to_string)
+                        .map(no_empty_description)
                         .collect()
                 };
                 if got != want {
